@@ -17,20 +17,25 @@ Section C06.
   Variable start : call -> K.
   Variable resume : K -> MS -> MS * list I * status (K:=K) (R:=R).
   Variable ret : K -> R -> K.
+  Variable reg : MS -> nat -> option (list nat).    (* model_context_map, part of the machine state *)
   Variable cfg : lcfg.
   Hypothesis WF : wf_cfg cfg = true.
   Variable ms0 : MS.
   Variable progs : nat -> list call.
 
-  Notation reach := (reachable start resume ret cfg ms0 progs).
-  Notation stp := (step start resume ret cfg).
+  (* reachable within the envelope: g = run sched (init progs ms0) for some schedule, and the ghost flag
+     g_bad is down (no call entered with an empty context list - an event sent to an unregistered model of
+     a LockedMachine - or with a context object configured twice) *)
+  Notation reach := (reachable start resume ret reg cfg ms0 progs).
+  Notation stp := (step start resume ret reg cfg).
 
-  (* The protocol invariant holds in every reachable state: each thread's entered contexts are a prefix
-     of the configured list (all of it while processing), nested activations hold nothing, a lock's
-     owner / ident.current is exactly the thread that entered it. *)
+  (* The protocol invariant holds in every such state: each thread's entered contexts are a prefix of the
+     list it read when the call started (all of it while processing), nested activations hold nothing, a
+     lock's owner / ident.current is exactly the thread that entered it. *)
   Theorem C06_invariant : forall sched,
-    Inv cfg (run start resume ret cfg sched (init progs ms0)).
-  Proof. exact (@c06_invariant MS K R I start resume ret cfg WF ms0 progs). Qed.
+    g_bad (run start resume ret reg cfg sched (init progs ms0)) = false ->
+    Inv cfg (run start resume ret reg cfg sched (init progs ms0)).
+  Proof. exact (@c06_invariant MS K R I start resume ret reg cfg WF ms0 progs). Qed.
 
   (* Mutual exclusion: at most one thread is between its first acquire and its last release; at most
      one thread executes segments (callbacks), it owns the first machine context and is ident.current. *)
@@ -38,7 +43,7 @@ Section C06.
     (held g t1 <> [] -> held g t2 <> [] -> t1 = t2) /\
     (in_segment g t1 -> in_segment g t2 -> t1 = t2) /\
     (in_segment g t1 -> g_own g (L0 cfg) = t1 /\ g_ident g = t1).
-  Proof. exact (@c06_mutex MS K R I start resume ret cfg WF ms0 progs). Qed.
+  Proof. exact (@c06_mutex MS K R I start resume ret reg cfg WF ms0 progs). Qed.
 
   (* Serial equivalence: the completed top-level calls, in the order in which they acquired the machine,
      form a serial execution from the initial machine state with the same per-call results and item
@@ -48,7 +53,7 @@ Section C06.
     exists msk,
       serial_exec start resume ret (dcalls (g_done g)) ms0 msk (dress (g_done g)) /\
       ((forall t, t <> 0 -> t_cur (g_th g t) = None) -> g_ms g = msk /\ g_acq g = dpairs (g_done g)).
-  Proof. exact (@serial_final MS K R I start resume ret cfg WF ms0 progs). Qed.
+  Proof. exact (@serial_final MS K R I start resume ret reg cfg WF ms0 progs). Qed.
 
   (* ... and while a call is being processed, the machine state is an intermediate state of the purely
      sequential execution of that call started after the serial execution of the completed ones. *)
@@ -59,7 +64,14 @@ Section C06.
       seq_iter start resume ret n (Running [start (a_call a)] msk []) =
         Running (kstack (t_nest (g_th g t)) k) (g_ms g) (t_items (g_th g t)) /\
       g_acq g = dpairs (g_done g) ++ [(t, a_call a)].
-  Proof. exact (@serial_mid MS K R I start resume ret cfg WF ms0 progs). Qed.
+  Proof. exact (@serial_mid MS K R I start resume ret reg cfg WF ms0 progs). Qed.
+
+  (* ... and these are "the same calls": per thread, program = completed calls (in program order) ++ the
+     call in progress ++ the calls not yet started; a finished thread has completed exactly its program. *)
+  Theorem C06_same_calls : forall g t, reach g -> t <> 0 ->
+    progs t = tcalls t (g_done g) ++ pend (g_th g t) ++ t_prog (g_th g t) /\
+    (thread_done (g_th g t) = true -> tcalls t (g_done g) = progs t).
+  Proof. exact (@c06_same_calls MS K R I start resume ret reg cfg ms0 progs). Qed.
 
   (* Re-entrancy: a call made from a callback by the thread that is inside touches no lock and not
      ident.current, starts processing at once, and the thread is not blocked. *)
@@ -68,115 +80,121 @@ Section C06.
     resume k (g_ms g) = (ms', its, SCall c' k') ->
     let g' := stp tid g in
     (forall l, g_own g' l = g_own g l) /\ g_ident g' = g_ident g /\
-    top_act (g_th g' tid) = Some (mkAct c' (PRun (start c')) []) /\
+    top_act (g_th g' tid) = Some (mkAct c' (PRun (start c')) [] []) /\
     blocked g' tid = false /\
     g_log g' = g_log g ++ [EvSeg tid (a_call a) its].
-  Proof. exact (@c06_reentrant MS K R I start resume ret cfg WF ms0 progs). Qed.
+  Proof. exact (@c06_reentrant MS K R I start resume ret reg cfg WF ms0 progs). Qed.
 
   Theorem C06_reentrant_never_blocked : forall g t, reach g -> t <> 0 ->
     t_nest (g_th g t) <> [] -> blocked g t = false.
-  Proof. exact (@c06_reentrant_never_blocked MS K R I start resume ret cfg WF ms0 progs). Qed.
+  Proof. exact (@c06_reentrant_never_blocked MS K R I start resume ret reg cfg WF ms0 progs). Qed.
 
-  (* Contexts: while a top-level call is processed, every context the code configures for it is held by
-     the processing thread, and they were entered in the configured order ... *)
-  Theorem C06_contexts_held_code : forall g t a k, reach g -> t <> 0 ->
+  (* Contexts.  (1) A top-level call reads its context list when it starts (the unlocked read of
+     model_context_map next to the read of ident.current): machine contexts, then the contexts registered
+     for the event's model at that moment; for LockedMachine this is exactly what the property demands. *)
+  Theorem C06_entry_reads_configuration : forall (g : gstate) tid c rest,
+    tid <> 0 -> t_nest (g_th g tid) = [] -> t_cur (g_th g tid) = None -> t_prog (g_th g tid) = c :: rest ->
+    g_ident g <> tid -> ctxs_of reg cfg (g_ms g) c <> [] ->
+    t_cur (g_th (stp tid g) tid) =
+      Some (mkAct c (PAcq (ctxs_of reg cfg (g_ms g) c)) [] (ctxs_of reg cfg (g_ms g) c)) /\
+    (cfg_hier cfg = false -> ctxs_of reg cfg (g_ms g) c = ctxs_spec reg cfg (g_ms g) c).
+  Proof. exact (@entry_reads_configuration MS K R I start resume ret reg cfg). Qed.
+
+  (* (2) no later step changes the call or that list while the activation exists *)
+  Theorem C06_contexts_fixed : forall (g : gstate) tid t a, t_cur (g_th g t) = Some a ->
+    match t_cur (g_th (stp tid g) t) with
+    | Some a' => a_call a' = a_call a /\ a_ctxs a' = a_ctxs a
+    | None => True
+    end.
+  Proof. exact (@a_ctxs_stable MS K R I start resume ret reg cfg). Qed.
+
+  (* (3) while the call is processed every context of that list is held by the processing thread, and
+     they were entered in the order of the list *)
+  Theorem C06_contexts_held : forall g t a k, reach g -> t <> 0 ->
     t_cur (g_th g t) = Some a -> a_phase a = PRun k ->
-    rev (a_held a) = ctxs_of cfg (a_call a) /\
-    forall x, In x (ctxs_of cfg (a_call a)) -> holds g t x.
-  Proof. exact (@c06_contexts_held_code MS K R I start resume ret cfg WF ms0 progs). Qed.
+    rev (a_held a) = a_ctxs a /\
+    forall x, In x (a_ctxs a) -> holds g t x.
+  Proof. exact (@c06_contexts_held_code MS K R I start resume ret reg cfg WF ms0 progs). Qed.
 
-  (* ... for LockedMachine (flat) this is exactly what the property demands: machine contexts, then the
-     contexts of the event's model. *)
-  Theorem C06_contexts_held : cfg_hier cfg = false -> forall g t a k, reach g -> t <> 0 ->
-    t_cur (g_th g t) = Some a -> a_phase a = PRun k ->
-    rev (a_held a) = ctxs_spec cfg (a_call a) /\
-    forall x, In x (ctxs_spec cfg (a_call a)) -> holds g t x.
-  Proof. exact (@c06_contexts_held MS K R I start resume ret cfg WF ms0 progs). Qed.
-
-  (* at every moment the contexts entered so far are a prefix of the configured list (order) *)
+  (* at every moment the contexts entered so far are a prefix of the list (order) *)
   Theorem C06_contexts_order : forall g t a, reach g -> t <> 0 -> t_cur (g_th g t) = Some a ->
-    exists suf, rev (a_held a) ++ suf = ctxs_of cfg (a_call a).
-  Proof. exact (@c06_contexts_order MS K R I start resume ret cfg WF ms0 progs). Qed.
+    exists suf, rev (a_held a) ++ suf = a_ctxs a.
+  Proof. exact (@c06_contexts_order MS K R I start resume ret reg cfg WF ms0 progs). Qed.
 
-  (* after the call (whatever its result r : R was — a value or an exception) nothing is held *)
+  (* after the call (whatever its result r : R was - a value or an exception) nothing is held *)
   Theorem C06_contexts_released : forall g t, reach g -> t <> 0 -> t_cur (g_th g t) = None ->
     forall x, ~ holds g t x.
-  Proof. exact (@c06_contexts_released MS K R I start resume ret cfg WF ms0 progs). Qed.
-
-  (* ... and these are "the same calls": per thread, program = completed calls (in program order) ++ the
-     call in progress ++ the calls not yet started; a finished thread has completed exactly its program. *)
-  Theorem C06_same_calls : forall g t, reach g -> t <> 0 ->
-    progs t = tcalls t (g_done g) ++ pend (g_th g t) ++ t_prog (g_th g t) /\
-    (thread_done (g_th g t) = true -> tcalls t (g_done g) = progs t).
-  Proof. exact (@c06_same_calls MS K R I start resume ret cfg ms0 progs). Qed.
+  Proof. exact (@c06_contexts_released MS K R I start resume ret reg cfg WF ms0 progs). Qed.
 
   (* No deadlock: unless every thread is finished, some thread can make a real step. *)
   Theorem C06_progress : forall g, reach g ->
     (exists t, t <> 0 /\ thread_done (g_th g t) = false) -> exists t', enabled g t' = true.
-  Proof. exact (@c06_progress MS K R I start resume ret cfg WF ms0 progs). Qed.
+  Proof. exact (@c06_progress MS K R I start resume ret reg cfg WF ms0 progs). Qed.
 End C06.
 Print Assumptions C06_invariant.
 Print Assumptions C06_mutex.
 Print Assumptions C06_serial.
 Print Assumptions C06_serial_in_progress.
+Print Assumptions C06_same_calls.
 Print Assumptions C06_reentrant.
 Print Assumptions C06_reentrant_never_blocked.
-Print Assumptions C06_contexts_held_code.
+Print Assumptions C06_entry_reads_configuration.
+Print Assumptions C06_contexts_fixed.
 Print Assumptions C06_contexts_held.
 Print Assumptions C06_contexts_order.
 Print Assumptions C06_contexts_released.
 Print Assumptions C06_progress.
-Print Assumptions C06_same_calls.
 
 (* The macro steps executed by the correspondence runner (Model/LockIO.v: one observable step followed by
    the steps that cannot be observed from outside) are ordinary schedules: every macro run is the run of
    some fine-grained schedule, hence covered by all theorems above. *)
 Theorem C06_macro_runs_are_schedules : forall tab cfg msched (g : cgstate),
-  exists sched, macro_run tab cfg msched g = run (c_start tab) (c_resume tab) c_ret cfg sched g.
+  exists sched, macro_run tab cfg msched g = run (c_start tab) (c_resume tab (cfg_hier cfg)) c_ret c_reg cfg sched g.
 Proof. exact macro_run_is_run. Qed.
 Print Assumptions C06_macro_runs_are_schedules.
 
 (* ------------------------------------------------------------------ a tiny concrete machine for witnesses:
-   a call with id n consists of n+1 segments; nothing else happens *)
+   a call with id n consists of n+1 segments; the machine state counts segments; registrations are fixed *)
 Definition w_start (c : call) : nat := c_id c.
 Definition w_resume (k : nat) (ms : nat) : nat * list nat * status (K:=nat) (R:=nat) :=
   match k with 0 => (S ms, [k], SDone ms) | S k' => (S ms, [k], SMore k') end.
 Definition w_ret (k : nat) (r : nat) : nat := k.
+Definition w_reg (ms : nat) (m : nat) : option (list nat) :=
+  match m with 0 => Some [3] | 1 => Some [4; 5] | 2 => Some [] | _ => None end.
 
-(* non-vacuity: a configuration with two machine contexts and model contexts is well-formed, and two
-   threads contending for it run to completion in serial order *)
+(* non-vacuity: two machine contexts and model contexts; two threads contending run to completion in
+   serial order inside the envelope *)
 Example C06_example :
-  let cfg := mkCfg [1; 2] [(0, [3]); (1, [4; 5])] false in
+  let cfg := mkCfg [1; 2] false in
   let progs := fun t => match t with 1 => [mkCall (KEvent 0) 1] | 2 => [mkCall (KEvent 1) 0; mkCall KMethod 0] | _ => [] end in
-  let g := run w_start w_resume w_ret cfg (flat_map (fun _ => [1; 2]) (seq 0 30)) (init progs 0) in
-  wf_cfg cfg = true /\ g_ms g = 4 /\ g_acq g = [(1, mkCall (KEvent 0) 1); (2, mkCall (KEvent 1) 0); (2, mkCall KMethod 0)] /\
+  let g := run w_start w_resume w_ret w_reg cfg (flat_map (fun _ => [1; 2]) (seq 0 30)) (init progs 0) in
+  wf_cfg cfg = true /\ g_bad g = false /\ g_ms g = 4 /\
+  g_acq g = [(1, mkCall (KEvent 0) 1); (2, mkCall (KEvent 1) 0); (2, mkCall KMethod 0)] /\
   map (fun d => d_res d) (g_done g) = [1; 2; 3] /\ thread_done (g_th g 1) = true /\ thread_done (g_th g 2) = true.
 Proof. vm_compute. repeat split; reflexivity. Qed.
 
 (* KF-C06-1: on the hierarchical locked classes (event_cls = NestedEvent) the contexts of the event's
-   model are never entered: a reachable state in which thread 1 is processing an event on model 0 while
-   that model's context (lock 5) is free — the statement of C06_contexts_held fails without its
-   hypothesis cfg_hier = false. *)
+   model are never entered: a state reachable inside the envelope in which thread 1 is processing an
+   event on model 0 while that model's context (lock 3) is free. *)
 Theorem C06_contexts_held_hier_refuted :
   exists (cfg : lcfg) (progs : nat -> list call) (sched : list nat) (a : act (K:=nat) (R:=nat)) (k : nat),
     wf_cfg cfg = true /\ cfg_hier cfg = true /\
-    let g := run w_start w_resume w_ret cfg sched (init progs 0) in
-    t_cur (g_th g 1) = Some a /\ a_phase a = PRun k /\
-    In (CLock 5) (ctxs_spec cfg (a_call a)) /\ ~ holds g 1 (CLock 5).
+    let g := run w_start w_resume w_ret w_reg cfg sched (init progs 0) in
+    g_bad g = false /\ t_cur (g_th g 1) = Some a /\ a_phase a = PRun k /\
+    In (CLock 3) (ctxs_spec w_reg cfg (g_ms g) (a_call a)) /\ ~ holds g 1 (CLock 3).
 Proof.
-  exists (mkCfg [0] [(0, [5])] true),
+  exists (mkCfg [0] true),
          (fun t => match t with 1 => [mkCall (KEvent 0) 2] | _ => [] end),
          [1; 1; 1; 1],
-         (mkAct (mkCall (KEvent 0) 2) (PRun 1) [CIdent; CLock 0]), 1.
+         (mkAct (mkCall (KEvent 0) 2) (PRun 1) [CIdent; CLock 0] [CLock 0; CIdent]), 1.
   vm_compute. repeat split; try reflexivity.
   - right. right. left. reflexivity.
   - discriminate.
 Qed.
 
-(* Also false of the faithful model (and of /repo, probes/C06-notes.py (a)) when read for NESTED events: an
-   event on another model triggered from a callback by the thread that is inside takes the re-entrant
-   path, so that model's contexts (lock 7) are not entered while it is processed.  C06_contexts_held is
-   therefore stated for top-level calls. *)
+(* KF-C06-2 (candidate): an event on ANOTHER model triggered from a callback by the thread that is inside
+   takes the re-entrant path, so that model's contexts (locks 4, 5) are not entered while it is processed
+   (probes/KF-C06-2.py).  C06_contexts_held is therefore about top-level calls. *)
 Definition w2_resume (k : nat) (ms : nat) : nat * list nat * status (K:=nat) (R:=nat) :=
   match k with
   | 0 => (S ms, [k], SDone ms)
@@ -187,18 +205,35 @@ Definition w2_resume (k : nat) (ms : nat) : nat * list nat * status (K:=nat) (R:
 Theorem C06_contexts_held_nested_refuted :
   exists (cfg : lcfg) (progs : nat -> list call) (sched : list nat) (a : act (K:=nat) (R:=nat)) (k : nat),
     wf_cfg cfg = true /\ cfg_hier cfg = false /\
-    let g := run w_start w2_resume w_ret cfg sched (init progs 0) in
-    top_act (g_th g 1) = Some a /\ a_phase a = PRun k /\ a_call a = mkCall (KEvent 1) 1 /\
-    In (CLock 7) (ctxs_spec cfg (a_call a)) /\ ~ holds g 1 (CLock 7).
+    let g := run w_start w2_resume w_ret w_reg cfg sched (init progs 0) in
+    g_bad g = false /\ top_act (g_th g 1) = Some a /\ a_phase a = PRun k /\ a_call a = mkCall (KEvent 1) 1 /\
+    In (CLock 4) (ctxs_spec w_reg cfg (g_ms g) (a_call a)) /\ ~ holds g 1 (CLock 4).
 Proof.
-  exists (mkCfg [0] [(0, []); (1, [7])] false),
+  exists (mkCfg [0] false),
          (fun t => match t with 1 => [mkCall (KEvent 0) 5] | _ => [] end),
-         [1; 1; 1; 1],
-         (mkAct (mkCall (KEvent 1) 1) (PRun 1) []), 1.
+         [1; 1; 1; 1; 1],
+         (mkAct (mkCall (KEvent 1) 1) (PRun 1) [] []), 1.
   vm_compute. repeat split; try reflexivity.
   - right. right. left. reflexivity.
   - discriminate.
 Qed.
+
+(* KF-C06-3 (candidate): an event sent to a model that is not registered (after remove_model) finds an
+   empty context list on LockedMachine and is processed without the machine lock: outside the envelope
+   (g_bad is raised) mutual exclusion fails - two threads execute segments at the same time
+   (probes/KF-C06-3.py).  This is why the theorems carry the hypothesis g_bad = false. *)
+Theorem C06_mutex_unregistered_refuted :
+  exists (cfg : lcfg) (progs : nat -> list call) (sched : list nat),
+    wf_cfg cfg = true /\ cfg_hier cfg = false /\
+    let g := run w_start w_resume w_ret w_reg cfg sched (init progs 0) in
+    g_bad g = true /\ in_segment g 1 /\ in_segment g 2.
+Proof.
+  exists (mkCfg [0] false),
+         (fun t => match t with 1 => [mkCall (KEvent 0) 3] | 2 => [mkCall (KEvent 9) 3] | _ => [] end),
+         [1; 1; 1; 1; 2].
+  vm_compute. repeat split; try reflexivity; eexists; eexists; split; reflexivity.
+Qed.
 Print Assumptions C06_example.
 Print Assumptions C06_contexts_held_hier_refuted.
 Print Assumptions C06_contexts_held_nested_refuted.
+Print Assumptions C06_mutex_unregistered_refuted.
